@@ -467,9 +467,12 @@ func (s *Session) pump() {
 		s.mu.Unlock()
 		if have {
 			l := s.p.l
+			// The "recv" tap is logged BEFORE the datagram is handed over, so that in the tap log every
+			// receive precedes all of its consequences (a logged receive on a closing session may not
+			// actually be processed; monitors treat "recv" as "may have been received").
+			l.net.tap(l.ID, s.self, s.other, "recv", it.data)
 			select {
 			case s.peer.in <- it.data:
-				l.net.tap(l.ID, s.self, s.other, "recv", it.data)
 			case <-s.p.closed:
 				return
 			}
